@@ -14,7 +14,7 @@ INVARIANTS InvImplEqualsRule InvPartition Export
 CHECK_DEADLOCK FALSE
 """
 ASSUMPTIONS = [
-    "Struct family: the 12 field shapes of spec/Unmarshal.tla (scalars, slices, maps, any, nested and pointer-to-struct, yaml:\"-\", untagged, flag-only and omitempty tags, alias lists) plus an inline map or inline struct; alias names are disjoint from all primary keys and from each other; embedded fields only as two hand-written targets (a struct embedded with the inline flag, exported and unexported type name; reflect.StructOf cannot build them), judged against yaml.v3.",
+    "Struct family: the 12 field shapes of spec/Unmarshal.tla (scalars, slices, maps, any, nested and pointer-to-struct, yaml:\"-\", untagged, flag-only and omitempty tags, alias lists) plus an inline map or inline struct; alias names are disjoint from all primary keys and from each other; embedded fields only as two hand-written targets (a struct embedded with the inline flag, exported and unexported type name; reflect.StructOf cannot build them), judged against yaml.v3; a third hand-written target holds sequences of pointers, maps, lists, any, strings and structs, decoded from documents with null items at the start, in the middle and at the end (a null item keeps its position), judged against yaml.v3 as well.",
     "Documents are well-typed for the field that could consume each key; each key carries its own marker value.",
     "The yaml.v3 reference clause applies to zero-valued destinations of alias-free targets without an inline struct (yaml.v3 replaces pre-filled slices where this decoder appends, and does not fill an inline struct's leftovers the same way).",
 ]
